@@ -40,8 +40,8 @@ PY_MODULES = ('functions', 'factorials', 'hypergeometric', 'expintegrals', 'bess
 PRECS = [10, 53, 100, 333]
 BITMULT = ['2p', '4p', '1000']
 CALL_CAP = {'quick': 1.0, 'thorough': 2.5}
-DRAWS = {'quick': 1, 'thorough': 6}
-OPCASES = {'quick': 1500, 'thorough': 12000}
+DRAWS = {'quick': 2, 'thorough': 8}
+OPCASES = {'quick': 3000, 'thorough': 20000}
 
 # ---- what the statement covers -----------------------------------------------------------
 # asserted categories: "elementary and special functions" (+ the non-exact f* arithmetic functions, which the statement's
